@@ -83,9 +83,10 @@ pub fn run(ctx: &mut Ctx) {
     let cfg = GenCfg::standard();
     let n = ctx.n(400, 25_000);
     let cases = matcher_cases(prop, ctx, &cfg, n);
-    ctx.ev.rule = "each corpus/fixture/generated ledger × {3 random permutations of its lines, 1 random fill-splitting of a BUY/SELL (same Σq, Σq·p, Σfees; BUY fills scattered among other lines)}: the implementation's reports must agree with the base ledger's (legs exactly when no (date, security) has ≥ 2 SELL lines, otherwise per (rule, acquisition date)); base report also compared with the Lean model. File partitions: the CLI joins files with a newline before parsing, see C13's concatenation theorem; here partitions are exercised as permutations of the concatenated lines. Non-trivial = accepted ledger with ≥ 2 lines sharing a date; distinct by ledger text.".into();
+    ctx.ev.rule = "each corpus/fixture/generated ledger × {3 random permutations of its lines, 1 random fill-splitting of a BUY/SELL (same Σq, Σq·p, Σfees; BUY fills scattered among other lines)}: the implementation's reports must agree with the base ledger's (legs exactly when no (date, security) has ≥ 2 SELL lines, otherwise per (rule, acquisition date)); base report also compared with the Lean model. File partitions: through the real CLI, the lines spread over 2–3 files (LF or CRLF, with or without a final newline, possibly ending in a comment) against the single file. Non-trivial = accepted ledger with ≥ 2 lines sharing a date; distinct by ledger text.".into();
     let ex = run_impl::wide_exemptions();
     let mut r = Rng::new(ctx.seed ^ 0xC06);
+    let mut cli_budget: i64 = if ctx.tier == Tier::Quick { 10 } else { 120 };
     for (name, l) in cases {
         ctx.ev.evaluations += 1;
         let base = run_impl::impl_calc(&l, None, &ex);
@@ -115,6 +116,41 @@ pub fn run(ctx: &mut Ctx) {
             let out = run_impl::impl_calc(&v, None, &ex);
             if let Some(what) = same(&out, &base, !msd) {
                 ctx.ev.violation("oracle", format!("recording a trade as same-day fills changes the report: {what}"), replay_text(prop, "oracle: base ledger below; variant after '# variant'", &what, &l, &["variant:".to_string()].into_iter().chain(v.iter().map(|t| t.dsl())).collect::<Vec<_>>()));
+            }
+        }
+        // file partitions through the real CLI: the same lines spread over 2–3 files (with or without a
+        // final newline, a file may end in a comment line) must give the report of the single file
+        if crate::cli::available() && cli_budget > 0 && base.is_ok() && l.len() >= 3 {
+            cli_budget -= 1;
+            ctx.ev.count("cli-file-partitions");
+            let lines: Vec<String> = l.iter().map(|t| t.dsl()).collect();
+            let sc = crate::cli::Scratch::new();
+            sc.write("all.cgt", &(lines.join("\n") + "\n"));
+            let k = 2 + r.below(2) as usize;
+            let mut cuts: Vec<usize> = (0..k - 1).map(|_| 1 + r.below((lines.len() - 1) as u64) as usize).collect();
+            cuts.sort(); cuts.dedup();
+            let mut names: Vec<String> = Vec::new();
+            let mut start = 0;
+            let mut layout = Vec::new();
+            for (fi, end) in cuts.iter().copied().chain(std::iter::once(lines.len())).enumerate() {
+                let mut body = lines[start..end].join(if r.chance(1, 4) { "\r\n" } else { "\n" });
+                let style = r.below(4);
+                match style { 0 => body.push('\n'), 1 => {}, 2 => body.push_str("\n# end of this part"), _ => body.push_str("   # trailing note") }
+                layout.push(format!("part{fi}: lines {start}..{end}, ending style {style}"));
+                let name = format!("part{fi}.cgt");
+                sc.write(&name, &body);
+                names.push(name);
+                start = end;
+            }
+            let one = crate::cli::run(&sc, &["report", "all.cgt", "--format", "json"]);
+            let mut args: Vec<&str> = vec!["report"];
+            for n in &names { args.push(n); }
+            args.push("--format"); args.push("json");
+            let many = crate::cli::run(&sc, &args);
+            let strip = |o: &crate::cli::CliOut| -> Option<(serde_json::Value, serde_json::Value)> { let v: serde_json::Value = serde_json::from_slice(&o.stdout).ok()?; Some((v["tax_years"].clone(), v["holdings"].clone())) };
+            let same = one.code == many.code && (one.code != Some(0) || strip(&one) == strip(&many));
+            if !same {
+                ctx.ev.violation("oracle", format!("spreading the lines over {} files changes the outcome: single file exit {:?}, several files exit {:?} ({})", names.len(), one.code, many.code, many.stderr.lines().next().unwrap_or("reports differ")), replay_text(prop, "oracle: cgt-tool report part0.cgt part1.cgt … vs cgt-tool report all.cgt; files as described (no final newline unless style 0)", "file partition", &l, &layout));
             }
         }
         // correspondence on the base ledger
